@@ -50,6 +50,7 @@ OPTION_SETS = {
     "default": [],
     "noopt_nodebump": ["--noopt", "--nodebump"],
     "assign_only_h": ["--assign-only"],
+    "whitespace": ["--whitespace"],
     "neutraln": ["--neutraln"],
     "neutralc": ["--neutralc"],
     "neutral_both": ["--neutraln", "--neutralc"],
@@ -288,6 +289,9 @@ def run_e2e(case):
         desc["hydrogens"] = True
     if case["kind"] == "host":
         atoms, info = corpus.build_host(desc)
+    elif case["kind"] == "mixed":
+        atoms, info = corpus.build_mixed(desc["name"],
+                                         hydrogens=desc.get("hydrogens", False))
     else:
         atoms = build.build_strand(desc["seq"], naming=desc["naming"],
                                    hydrogens=desc.get("hydrogens", False))
@@ -398,7 +402,8 @@ def enumerate_cases(tier, seed):
     chunk = 40
     for i in range(0, len(programs), chunk):
         cases.append({"mode": "program", "programs": programs[i:i + chunk]})
-    for optname in ("default", "noopt_nodebump", "assign_only_h"):
+    for optname in ("default", "noopt_nodebump", "assign_only_h",
+                    "whitespace"):
         for ff in corpus.FFS:
             for x in corpus.INPUT_NAMES:
                 for pos in corpus.POSITIONS:
@@ -417,6 +422,12 @@ def enumerate_cases(tier, seed):
                                       "opt": optname,
                                       "desc": {"x": x, "pos": pos,
                                                "hydrogens": True}})
+    # several residues of every type in one chain
+    for name in corpus.MIXED:
+        for ff in corpus.FFS:
+            for optname in ("default", "noopt_nodebump", "assign_only_h"):
+                cases.append({"mode": "e2e", "kind": "mixed", "ff": ff,
+                              "opt": optname, "desc": {"name": name}})
     # neutral termini (PARSE only): NEUTRAL-N* / NEUTRAL-C* parameter sets
     for optname in ("neutraln", "neutralc", "neutral_both"):
         for x in corpus.INPUT_NAMES:
